@@ -4,6 +4,7 @@ package cl
 
 import (
 	"math"
+	"math/big"
 	"math/cmplx"
 
 	"github.com/ohler55/slip"
@@ -49,6 +50,9 @@ func (f *Expt) Call(s *slip.Scope, args slip.List, depth int) (result slip.Objec
 	slip.CheckArgCount(s, depth, f, args, 2, 2)
 	if base, ok := args[0].(slip.Fixnum); ok {
 		if pow, ok2 := args[1].(slip.Fixnum); ok2 {
+			if 0 <= pow { // exact, an integer
+				return bigToInteger(new(big.Int).Exp(big.NewInt(int64(base)), big.NewInt(int64(pow)), nil))
+			}
 			x := math.Pow(float64(base), float64(pow))
 			if (-1.0 < x && x < 1.0) || float64(math.MaxInt64) < x || x < float64(math.MinInt64) {
 				return slip.DoubleFloat(x)
